@@ -155,6 +155,9 @@ func (g *Gen) HistoryBulk(size int) []E {
 	}
 	pad := []int{0, 16, 40, 120, 300}[g.r.Intn(5)]
 	nvals := len(g.smallN)
+	// large collections: often one value for every x, so that a query on x selects (nearly) everything
+	// and an update of x moves every selected document out of (or within) the selection
+	uniform := size >= 1000 && g.chance(0.7)
 	batch := make([]interface{}, 0)
 	flush := func() {
 		if len(batch) > 0 {
@@ -164,7 +167,9 @@ func (g *Gen) HistoryBulk(size int) []E {
 	}
 	for i := 0; i < size; i++ {
 		kv := []interface{}{"_id", AStr(bulkId(i))}
-		if g.chance(0.95) {
+		if uniform {
+			kv = append(kv, "x", ANum(g.smallN[1], "i"))
+		} else if g.chance(0.95) {
 			kv = append(kv, "x", ANum(g.smallN[(i*7+g.r.Intn(2))%nvals], "i"))
 		}
 		kv = append(kv, "k", ANum(g.smallN[i%nvals], "i"))
@@ -219,6 +224,9 @@ func (g *Gen) HistoryBulk(size int) []E {
 			q = []interface{}{[]interface{}{"where", []interface{}{"not", []interface{}{"un", "eq", B("x"), []interface{}{"lit", v}}}}}
 		}
 		rewriteX = true
+		if uniform {
+			q = []interface{}{[]interface{}{"where", []interface{}{"un", []string{"eq", "gte", "lte"}[g.r.Intn(3)], B("x"), []interface{}{"lit", ANum(g.smallN[1], "i")}}}}
+		}
 	}
 	nv := ANum(g.smallN[g.r.Intn(nvals)], "i")
 	big := ANum(g.smallN[nvals-1], "i")
